@@ -86,7 +86,11 @@ def r2_scd_in_response_to(run):
     detail = ""
     if ok:
         c = cmps[0]
-        sides = {unparse(c.left), unparse(c.comparators[0])}
+        holder = [nd for nd in cfg.nodes if nd.kind not in ("true", "false", "exc")
+                  and nd.ast is not None and any(
+                      x is c for r0 in cfg.own_exprs(nd) for x in ast.walk(r0))]
+        at = holder[0].id if holder else cfg.entry
+        sides = {cfg.itext(c.left, at), cfg.itext(c.comparators[0], at)}
         ok = "irp" in sides and any(
             s.endswith("subject_confirmation_data.in_response_to") for s in sides)
         detail = unparse(c)
@@ -378,20 +382,21 @@ def r6_recipient(run):
               "raises", fi.loc(), nontrivial=False)
     fv = m.func(AR + "verify_recipient")
     vcfg = cfg_of(fv, m)
-    ok_guards = ({Q("recipient == _info['entity_id']")[0]},
+    ok_guards = ({Q("recipient == self.conv_info['entity_id']")[0]},
                  {Q("recipient in self.return_addrs")[0]})
     n = 0
     for r in vcfg.by_kind("return"):
         if is_falsy_const(r.ast.value):
             continue
-        gs = facts(vcfg, r.id)
+        gs = facts(vcfg, r.id, inline=True)
         if Q("self.conv_info", False) in gs or Q("not self.conv_info", True) in gs:
             continue
         n += 1
         pos = {g for g, p in gs if p}
-        run.check(any(og <= pos for og in ok_guards), "R6",
+        which = [sorted(og)[0] for og in ok_guards if og <= pos]
+        run.check(bool(which), "R6",
                   fv.qual + "::" + norm_text(r.ast) + "@" +
-                  ",".join(sorted(pos))[:80],
+                  (which[0] if which else ",".join(sorted(pos)))[:80],
                   "True only for the own entity id / an own endpoint",
                   "verify_recipient returns %s under %s" %
                   (unparse(r.ast.value), sorted(gs)), fv.loc(r.ast))
@@ -403,12 +408,6 @@ def r6_recipient(run):
     last = [r for r in vcfg.by_kind("return") if is_falsy_const(r.ast.value)]
     run.check(bool(last), "R6", fv.qual + "::default-False",
               "otherwise False", "no falsy default", fv.loc(), nontrivial=False)
-    inf = [s for s in walk_no_nested(fv.node) if isinstance(s, ast.Assign) and
-           isinstance(s.targets[0], ast.Name) and s.targets[0].id == "_info"]
-    run.check(len(inf) == 1 and unparse(inf[0].value) == "self.conv_info", "R6",
-              fv.qual + "::_info", "_info = self.conv_info",
-              "_info <- %s" % [unparse(i.value) for i in inf], fv.loc(),
-              nontrivial=False)
 
 
 def r7_own_endpoints(run):
